@@ -163,7 +163,7 @@ def gen_history(rng):
             ops.append({"op": "subtract", "s": s})
         elif k in ("roundtrip", "roundtrip_twice"):
             drop = [key for key in ("version", "mask", "path", "label", "uuid") if rng.random() < 0.3]
-            ops.append({"op": k, "drop": drop, "json": bool(rng.random() < 0.7)})
+            ops.append({"op": k, "drop": drop, "json": bool(rng.random() < 0.7), "v1": bool(rng.random() < 0.15)})
         elif k == "duplicate":
             ops.append({"op": "duplicate", "label": None if rng.random() < 0.5 else "copy"})
         elif k == "average":
@@ -218,6 +218,15 @@ def _cmp_views(ds, m, step, viol, hist):
                 bf, bm, bp = ds.get_bode_data(masked=masked)
                 if not (np.array_equal(re_, zz.real) and np.array_equal(im_, -zz.imag) and np.array_equal(bf, ff) and np.array_equal(bm, abs(zz))):
                     bad("C05/derived-view", f"masked={masked}: nyquist/bode data disagree with get_impedances")
+        # derived tabular view
+        for masked in ((None, False, True) if step % 5 == 1 else ()):
+            exp = m.view(masked)
+            if len(exp) == 0:
+                continue
+            df = ds.to_dataframe(masked=masked)
+            if len(df) != len(exp) or [float(x) for x in df.iloc[:, 0]] != [t[0] for t in exp] or \
+                    [complex(a, b) for a, b in zip(df.iloc[:, 1], df.iloc[:, 2])] != [t[1] for t in exp]:
+                bad("C05/derived-view", f"masked={masked}: to_dataframe() rows disagree with the model view")
         if seen != len(allv):
             bad("C05/partition", f"masked+unmasked={seen} != all={len(allv)}")
         d = ds.to_dict()
@@ -285,6 +294,12 @@ def run_history(hist):
                     d = json.loads(json.dumps(d))
                 for key in op["drop"]:
                     d.pop(key, None)
+                if op.get("v1"):
+                    # the documented older dictionary layout (version 1): frequency / real / imaginary
+                    d["version"] = 1
+                    d["frequency"] = d.pop("frequencies")
+                    d["real"] = d.pop("real_impedances")
+                    d["imaginary"] = d.pop("imaginary_impedances")
                 snapshot = json.dumps(d, sort_keys=True, default=str)
                 try:
                     ds2 = DataSet.from_dict(d)
